@@ -6,10 +6,68 @@ package clock
 // it does not change the compiled package.
 
 // The timer goroutines are started with c.lock held by the spawning function
-// and release it themselves: the lock is handed over at the go statement.
+// and release it themselves: the lock is handed over at the go statement (C14).
 //@ func (*SuspendableClock).NewContextWithTimeout$1
 //@   props C14 C11
 //@   lockeffect c.lock -1
+//@   at call close#1 assert deadline-only-after-the-unsuspended-budget:
+//@             finalTotalUnsuspended - currentTotalUnsuspended < c.timeoutThreshold
+//@   at call close#1 assert budget-is-the-requested-timeout: finalTotalUnsuspended == initialTotalUnsuspended + old(d)
+//@   at call close#1 assert reported-duration-is-unsuspended-time: ctx.unsuspendedDuration == currentTotalUnsuspended - initialTotalUnsuspended
+//@   at call close#1 assert lock-released: held(c.lock) == -1
+//@   at call close#2 assert lock-released: held(c.lock) == -1
 //@ func (*SuspendableClock).NewTimer$1
 //@   props C14 C11
 //@   lockeffect c.lock -1
+
+// ---------------------------------------------------------------------------
+// Unsuspended time accounting (C11)
+//
+// U(c, t): total time the clock was not suspended up to time t.
+
+//@ pred U(c *SuspendableClock, t mathint) :=
+//@      c.totalUnsuspended + ite(c.suspensionCount == 0 && t > c.unsuspensionStart, t - c.unsuspensionStart, 0)
+//@ pred sane(c *SuspendableClock) :=
+//@      c.suspensionCount >= 0 && c.suspensionCount < 1000000000 &&
+//@      0 <= c.totalUnsuspended && c.totalUnsuspended < 1000000000000000000 &&
+//@      0 <= c.unsuspensionStart && c.unsuspensionStart < 1000000000000000000 &&
+//@      0 <= clocknow(c.base) && clocknow(c.base) < 1000000000000000000
+//@ pred keepsU(c *SuspendableClock, t mathint) := U(c, t) == old(U(c, t))
+
+//@ func (*SuspendableClock).getTotalUnsuspendedWithTime
+//@   props C11
+//@   requires sane(c) && 0 <= now && now < 1000000000000000000
+//@   ensures equals-U: r0 == U(c, now)
+//@   ensures pure: unchanged()
+
+//@ func (*SuspendableClock).getTotalUnsuspendedNow
+//@   props C11
+//@   requires sane(c)
+//@   ensures equals-U-now: r0 == U(c, clocknow(c.base))
+
+// Suspending and resuming never lose or invent unsuspended time: the
+// accounting function is continuous at the moment of the call.
+//@ func (*SuspendableClock).Suspend
+//@   props C11
+//@   requires sane(c) && clocknow(c.base) >= c.unsuspensionStart
+//@   ensures one-more-suspension: c.suspensionCount == old(c.suspensionCount) + 1
+//@   ensures U-continuous: keepsU(c, clocknow(c.base))
+//@   ensures balanced-lock: held(c.lock) == 0
+
+//@ func (*SuspendableClock).Resume
+//@   props C11
+//@   requires sane(c) && c.suspensionCount >= 1
+//@   ensures one-less-suspension: c.suspensionCount == old(c.suspensionCount) - 1
+//@   ensures U-continuous: keepsU(c, clocknow(c.base))
+//@   ensures total-untouched: c.totalUnsuspended == old(c.totalUnsuspended)
+
+// The wall-clock bound: the base context and the base timer are created with
+// the requested duration plus the maximum suspension.
+//@ func (*SuspendableClock).NewContextWithTimeout
+//@   props C11
+//@   at call NewContextWithTimeout#1 assert base-deadline-is-timeout-plus-maximum-compensation:
+//@             arg2 == d + c.maximumSuspension || d + c.maximumSuspension > MaxInt64 || d + c.maximumSuspension < MinInt64
+//@ func (*SuspendableClock).NewTimer
+//@   props C11
+//@   at call NewTimer#1 assert base-timer-is-duration-plus-maximum-compensation:
+//@             arg1 == d + c.maximumSuspension || d + c.maximumSuspension > MaxInt64 || d + c.maximumSuspension < MinInt64
